@@ -222,6 +222,19 @@ def decorrelate(select, parent_select, external_columns, next_alias_name):
     if isinstance(parent_predicate, exp.In) and _is_negated(parent_predicate):
         return
 
+    # Same reasoning as in unnest(): the rewritten membership test is FALSE where the original is
+    # unknown, which only goes unnoticed where the truth value merely filters rows
+    if isinstance(parent_predicate, (exp.In, exp.Any, exp.All)):
+        filter_predicate = (
+            parent_predicate
+            if isinstance(parent_predicate, exp.In)
+            else parent_predicate.parent
+        )
+        if not isinstance(filter_predicate, exp.Expr) or not _only_filters_rows(
+            filter_predicate, filter_predicate.find_ancestor(exp.Having, exp.Where, exp.Join)
+        ):
+            return
+
     # if the value of the subquery is not an agg or a key, we need to collect it into an array
     # so that it can be grouped. For subquery projections, we use a MAX aggregation instead.
     agg_func = exp.Max if is_subquery_projection else exp.ArrayAgg
